@@ -57,9 +57,9 @@ CHECKS = {
          "Exploration: random histories of up to 60 operations for 8 element types incl. zero-sized and drop-tracked ones; every result, the operands of concat and the number of live tracked elements are compared with the model after each step.",
          "Single-threaded; capacity only checked as >= len; Rust-side contains/index on transformed element types excluded while C15-F2 is open.",
          "DESIGN.md §4 C15"),
- "C16": ("controlled-schedule exploration: real threads run list operations one at a time under a baton scheduler driven by generated choices (hook verif::sched yields where an operation is outside its critical section); stale-pointer monitor over buffer events + brute-force linearizability check against the shared-vector model",
-         "Exploration: generated (configuration, schedule) pairs for 2-3 threads x up to 3 operations on 2 shared lists at capacity boundaries; a read through a pointer that predates a reallocation is detected from events without performing the read; each observed history must admit a linearization.",
-         "Interleavings only at hook granularity; every reallocation in the pointer window counts as relocation; the two known findings (get's pointer window, concat's two critical sections) are excluded by construction (spare capacity / no switch inside concat).",
+ "C16": ("two engines: (1) controlled-schedule exploration: real threads run list operations one at a time under a baton scheduler driven by generated choices (hook verif::sched), with a brute-force linearizability check against the shared-vector model; (2) free-running stress: real threads race on fresh lists of drop-tracked elements at capacity boundaries, freed memory is poisoned by the harness allocator so that stale reads are seen as use of garbage",
+         "Exploration: generated (configuration, schedule) pairs for 2-3 threads x up to 3 operations on 2 shared lists at capacity boundaries, each observed history must admit a linearization; generated (mutator, readers, list size, comparison cost) configurations raced for 4-15 rounds each, no stale read, consistent results, final contents a permutation of the expected elements.",
+         "Scheduler engine: interleavings only at hook granularity. Free-running engine: the OS owns the schedule; a window of a few instructions may be hit only in the thorough tier.",
          "DESIGN.md §4 C16"),
  "C17": ("catalogue of ~85 built-ins x generated semantic arguments; differential against Rust std / inetnum computed in the harness",
          "Exploration: every built-in of the default runtime is applied by a compiled script to generated Unicode strings, boundary indices, counts, float bit patterns, addresses and prefix lengths, and the result is compared with the documented Rust operation.",
